@@ -408,7 +408,10 @@ func orderName(re, rt, rz int) string {
 // c06Detached checks the four methods of detachedContext.
 func (c *Ctx) c06Detached() {
 	r := c.R
-	obj := c.Pkg.Types.Scope().Lookup("detachedContext")
+	var obj types.Object
+	if tn := c.lookupType("detachedContext"); tn != nil {
+		obj = tn
+	}
 	if obj == nil {
 		r.Unknown("R06.4", "detachedContext", "type does not resolve")
 		return
